@@ -37,13 +37,27 @@ def tree_hash():
     return _tree_hash
 
 
+_cache_ready = False
+
+
 def cache_dir():
+    """build/<hash>; the three most recently used cache directories are kept (two trees may be checked concurrently,
+    e.g. /repo and a scratch copy given through VERIF_REPO), older ones are pruned"""
+    global _cache_ready
     d = os.path.join(BUILD, tree_hash())
+    if _cache_ready:
+        return d
     os.makedirs(d, exist_ok=True)
-    # prune stale cache directories (keep the current one)
-    for other in glob.glob(os.path.join(BUILD, '*')):
-        if os.path.isdir(other) and os.path.basename(other) != tree_hash() and len(os.path.basename(other)) == 16:
-            shutil.rmtree(other, ignore_errors=True)
+    try:
+        os.utime(d, None)
+    except OSError:
+        pass
+    others = [o for o in glob.glob(os.path.join(BUILD, '*'))
+              if os.path.isdir(o) and os.path.basename(o) != tree_hash() and len(os.path.basename(o)) == 16]
+    others.sort(key=lambda o: os.path.getmtime(o), reverse=True)
+    for other in others[2:]:
+        shutil.rmtree(other, ignore_errors=True)
+    _cache_ready = True
     return d
 
 
